@@ -34,7 +34,13 @@ def build_inputs(rng, tmp, nrec, with_reads=False):
                                         ["tp:A:P", "cg:Z:%d=" % len(q), "zz:Z:" + "x" * rng.randint(0, 40)]))
         else:
             pad = ["zz:Z:" + "pad" * rng.randint(0, 60)]
-            lines.append(gen.walk_record(rng, g, w, "q%d" % k, tags=gen.rand_tags(rng, cigar="5=") + pad))
+            tags = gen.rand_tags(rng, cigar="5=") + pad
+            r = rng.random()
+            if r < 0.08:
+                tags.append("co:Z:free text ending in a blank ")     # valid Z value; the line then ends in a blank
+            elif r < 0.12:
+                tags.append("tp:A:P ")                               # stray blank after the last field
+            lines.append(gen.walk_record(rng, g, w, "q%d" % k, tags=tags))
     text = "".join(l + "\n" for l in lines)
     gtext = g.text()
     p = {"gaf": os.path.join(tmp, "a.gaf"), "gafz": os.path.join(tmp, "b.gaf.gz"), "gfa": os.path.join(tmp, "g.gfa"), "gfaz": os.path.join(tmp, "h.gfa.gz")}
